@@ -90,6 +90,13 @@ def extra_scenarios(tier):
             for sort in (SORTS if thorough else ("fcfs", "lrpt")):
                 for est in (False, True):
                     yield {"net": "N9", "sessions": ss, "sched": {"kind": algo, "sort": sort, "est": est, "unint": False, "inc": 1}, "period": 5}
+    # (2b) constraint coefficients of magnitude above 1
+    stations = list(S.NETS["N12"]["stations"])
+    pool = [sess(st, a, 3, kind, i) for i, (st, a, kind) in enumerate(itertools.product(stations, (0, 1), ("fast", "small")))]
+    for ss in S.session_subsets(pool, 2, 3 if thorough else 2):
+        for algo in ("greedy", "rr"):
+            for sort in (SORTS if thorough else ("fcfs", "lrpt")):
+                yield {"net": "N12", "sessions": ss, "sched": {"kind": algo, "sort": sort, "est": False, "unint": False, "inc": 1}, "period": 5}
     # (3)
     for st2, kind2 in itertools.product(("PS-B", "PS-C"), ("fast", "slow")):
         ss = [dict(sess("PS-A", 0, 2, "fast", 0), sid="ev0"), dict(sess(st2, 4, 3, kind2, 1), sid="ev1"), dict(sess("PS-A", 4, 2, "fast", 2), sid="ev2")]
